@@ -97,6 +97,9 @@ func execAgentHistory(o *out, f [][]int) []int {
 			}
 		case 3:
 			m := &stun.Message{TransactionID: agentTID(op[1])}
+			if len(op) > 2 { // message type of the processed message (class and method must not matter)
+				m.Type.ReadValue(uint16(op[2]))
+			}
 			err = a.Process(m)
 		case 4:
 			err = a.Collect(agentBase.Add(time.Duration(op[1])))
@@ -121,7 +124,7 @@ func runC13(o *out, thorough bool, r *rng, _ []string) map[string]interface{} {
 		for _, d := range []int{1, 3} {
 			alphabet = append(alphabet, fNums(1, id, d))
 		}
-		alphabet = append(alphabet, fNums(2, id, 0), fNums(3, id))
+		alphabet = append(alphabet, fNums(2, id, 0), fNums(3, id, []int{0x0101, 0x0011, 0x0111}[id-1]))
 	}
 	alphabet = append(alphabet, fNums(2, 1, 7))
 	for t := 1; t <= 4; t++ {
@@ -164,7 +167,7 @@ func runC13(o *out, thorough bool, r *rng, _ []string) map[string]interface{} {
 			case 4, 5:
 				fs = append(fs, fNums(2, id, r.pick([]int{0, 0, 0, 5, 9})))
 			case 6, 7:
-				fs = append(fs, fNums(3, id))
+				fs = append(fs, fNums(3, id, r.pick([]int{0x0001, 0x0101, 0x0111, 0x0011, 0x0017, 0x0115, r.intn(0x4000)})))
 			case 8, 9:
 				now += r.intn(3)
 				fs = append(fs, fNums(4, now))
